@@ -437,3 +437,41 @@
         assert((p + 1) * st == p * st + st) by (nonlinear_arith);
         assert((p + 1) * st <= i * st) by (nonlinear_arith) requires p < i, st >= 0;
     }
+    // ---- the fields determine the bytes (so pack(unpack(v)) == v, and an encoding is unique)
+    pub proof fn lemma_bit_of_field(v: Seq<u8>, c: int, j: int, t: int)
+        requires c >= 1, j >= 0, 0 <= t < c,
+        ensures bit(v, c * j + t) == ibit(field(v, c, j), t),
+    {
+        let x = field(v, c, j);
+        let f = byte_bitf(v);
+        lemma_bits_range(v, c * j, c);
+        lemma_int_bits_small(x, c);
+        assert forall|i: int| 0 <= #[trigger] f(i) <= 1 by { }
+        lemma_ibit_is_bits(x);
+        lemma_bv_unique(f, c * j, ibitf(x), 0, c);
+        assert(f(c * j + t) == ibitf(x)(0 + t));
+    }
+    pub proof fn lemma_fields_determine_bytes(v1: Seq<u8>, v2: Seq<u8>, c: int)
+        requires 1 <= c, v1.len() == 32 * c, v2.len() == 32 * c,
+            forall|j: int| 0 <= j < 256 ==> #[trigger] field(v1, c, j) == field(v2, c, j),
+        ensures v1 == v2,
+    {
+        let f1 = byte_bitf(v1); let f2 = byte_bitf(v2);
+        assert forall|m: int| 0 <= m < 32 * c implies v1[m] == v2[m] by {
+            assert forall|i: int| 8 * m <= i < 8 * m + 8 implies #[trigger] f1(i) == f2(i) by {
+                let j = i / c; let t = i % c;
+                lemma_fundamental_div_mod(i, c);
+                assert(i == c * j + t);
+                assert(0 <= t < c);
+                assert(j >= 0) by (nonlinear_arith) requires i == c * j + t, 0 <= t < c, i >= 0, c >= 1;
+                assert(j < 256) by (nonlinear_arith) requires i == c * j + t, 0 <= t, i < 256 * c, c >= 1;
+                lemma_bit_of_field(v1, c, j, t);
+                lemma_bit_of_field(v2, c, j, t);
+            }
+            lemma_bv_ext(f1, f2, 8 * m, 8);
+            lemma_bits_byte(v1, 8 * m);
+            lemma_bits_byte(v2, 8 * m);
+            assert((8 * m) / 8 == m);
+        }
+        assert(v1 =~= v2);
+    }
